@@ -2,6 +2,7 @@ package checks
 
 import (
 	"fmt"
+	"github.com/Fantom-foundation/lachesis-base/hash"
 	"sort"
 
 	"github.com/Fantom-foundation/lachesis-base/emitter/ancestor"
@@ -20,6 +21,7 @@ const c20forkObs = uint64(1<<31 - 2)
 func runC20(c *ev.Ctx) {
 	c.Rule = "plain DAGs (1..10 validators, all weight regimes, forks by any subset) indexed by a real vecfc.Index; every event is handed to QuorumIndexer.ProcessEvent with a seeded self/non-self flag (independent of the creator, also flipping for one creator); a fifth of the events is delivered twice, a third is followed by the next event without any query in between; after every other event: GetGlobalMedianSeqs vs 'largest s such that the creators whose latest processed event observes the validator at >= s hold a quorum' computed from the reference's graph closure (a seen fork counts as 2^31-2), " +
 		"GetSelfParentSeqs vs the observation of the last event processed with the self flag, and GetMetricOf(candidate) for two known events (and, on a third of the events, for one more candidate asked right after ProcessEvent, before any other query) vs the sum over validators of an argument-order-sensitive diff function of (median, own, candidate's observation, validator index). " +
+		"Every 25th DAG has 66-75 validators. On a third of the events the indexer's SearchStrategy() is offered the same few candidates again and must pick one of maximal metric by the definition. " +
 		"non-trivial = distinct DAGs where some median was decided by a fork observation or where two creators' latest events disagreed about a validator by more than one"
 	c.Assumptions = []string{"observations come from the reference closure (C06 ties the index to it)", "the diff function is pure"}
 	nD := c.Pick(1500, 30000)
@@ -36,9 +38,20 @@ func runC20(c *ev.Ctx) {
 	c.Parallel(nD, 0, func(i int) {
 		r := c.Rand("dag", i)
 		plans := cons.RandomPlans(r, 1, 10, i%5 == 4, cons.CheatAny)
+		large := i%25 == 24
+		if large {
+			plans = cons.RandomPlans(r, 1, -(66 + r.Intn(10)), false, cons.CheatNone) // more validators than bits in a word
+			for k := range plans[0].Lag {
+				plans[0].Lag[k] = 0
+			}
+			c.Count("dags_with_more_than_64_validators", 1)
+		}
 		plan := plans[0]
 		n := len(plan.IDs)
 		cfg := &cons.GenCfg{Plans: plans, Plain: true, EventsPer: 10 + r.Intn(70), MinParents: r.Intn(2), MaxParents: 2 + r.Intn(n+1), ForkProb: 0.05 + r.Float64()*0.3}
+		if large {
+			cfg.EventsPer, cfg.MinParents, cfg.MaxParents = 150+r.Intn(60), 2, 10
+		}
 		d, _, err := cons.Generate(r, cfg)
 		if err != nil {
 			panic(err)
@@ -173,6 +186,53 @@ func runC20(c *ev.Ctx) {
 					c.Violation("own-observation-differs", m)
 					return
 				}
+			}
+			// ---- the search strategy built from the indexer picks a candidate of maximal (true) metric; the same few
+			// candidates are offered again and again while own events and medians move
+			if r.Intn(3) == 0 && ref.Len() >= 2 {
+				var opts hash.Events
+				var optIdx []int
+				for _, ci := range []int{0, 1, ref.Len() / 2, ref.Len() - 1, r.Intn(ref.Len())} {
+					dup := false
+					for _, o := range optIdx {
+						dup = dup || o == ci
+					}
+					if !dup && ci < ref.Len() {
+						optIdx = append(optIdx, ci)
+						opts = append(opts, ref.Ev(ci).ID)
+					}
+				}
+				trueMetric := func(ci int) ancestor.Metric {
+					var m ancestor.Metric
+					for vi, v := range sorted {
+						cur := uint64(0)
+						if selfEv >= 0 {
+							cur = obs(selfEv, v)
+						}
+						m += diff(idx.Event(wantMed[vi]), idx.Event(cur), idx.Event(obs(ci, v)), idx.Validator(vi))
+					}
+					return m
+				}
+				var pick int
+				if p, _ := ev.Try(func() { pick = qi.SearchStrategy().Choose(nil, opts) }); p != nil {
+					m := desc()
+					m["panic"] = fmt.Sprint(p)
+					c.Violation("metric-panics", m)
+					return
+				}
+				var best ancestor.Metric
+				for _, ci := range optIdx {
+					if tm := trueMetric(ci); tm > best {
+						best = tm
+					}
+				}
+				if pick < 0 || pick >= len(optIdx) || trueMetric(optIdx[pick]) != best {
+					m := desc()
+					m["event_index"], m["options"], m["picked"], m["why"] = k, optIdx, pick, "the indexer's search strategy picked a candidate whose metric (by the definition) is not maximal"
+					c.Violation("metric-differs-from-definition", m)
+					return
+				}
+				c.Count("strategy_picks_compared", 1)
 			}
 			// ---- metric of candidates
 			for q := 0; q < 3; q++ {
